@@ -922,14 +922,17 @@ def ordered_arguments(
   ):
     if param.kind not in (param.VAR_POSITIONAL, param.VAR_KEYWORD):
       value = unset
-      if name in buildable.__arguments__ or (
-          index in buildable.__arguments__
-          and param.kind == param.POSITIONAL_ONLY
-      ):
-        if name in buildable.__arguments__:
-          value = buildable.__arguments__[name]
-        else:
+      if param.kind == param.POSITIONAL_ONLY:
+        # Positional-only arguments are stored by index. (A str key with the
+        # same name can only be a **kwargs entry; it is handled below.)
+        has_value = index in buildable.__arguments__
+      else:
+        has_value = name in buildable.__arguments__
+      if has_value:
+        if param.kind == param.POSITIONAL_ONLY:
           value = buildable.__arguments__[index]
+        else:
+          value = buildable.__arguments__[name]
       elif param.default is not param.empty:
         if include_defaults:
           value = param.default
@@ -954,7 +957,11 @@ def ordered_arguments(
       if not isinstance(name, str):
         continue  # Positional arguments (int keys) were handled above.
       param = buildable.__signature_info__.parameters.get(name)
-      if param is None or param.kind == param.VAR_KEYWORD:
+      if param is None or param.kind in (
+          param.VAR_KEYWORD,
+          param.POSITIONAL_ONLY,
+          param.VAR_POSITIONAL,
+      ):
         result[name] = value
 
   if not include_positional:
